@@ -108,8 +108,9 @@ def cases(ctx, n):
         rs = np.random.RandomState(np_seed(ctx.sub_rng('net', k)))
         k += 1
         nv = int(rs.randint(1, 6))
-        card = {v: int(rs.randint(2, 4)) for v in range(nv)}
-        root = R.gen(rs, list(range(nv)), int(rs.randint(2, 6)), {}, card, share=float(rs.choice([0.0, 0.3, 0.6])))
+        use_clt = (k % 4 == 2)          # Chow-Liu leaves (multivariate leaf objects) in a quarter of the circuits
+        card = {v: (2 if use_clt else int(rs.randint(2, 4))) for v in range(nv)}
+        root = R.gen(rs, list(range(nv)), int(rs.randint(2, 6)), {}, card, share=float(rs.choice([0.0, 0.3, 0.6])), clt=use_clt)
         if not isinstance(root, (Sum, Product)):
             continue
         if k % 3 == 0:
